@@ -27,11 +27,16 @@ from ..common import Ctx, cz, cq, clist
 LEVEL = "proof"
 
 LOSSES = ["l2_amplitude", "l1_amplitude", "l2_intensity", "l1_intensity"]
-# loss(ground truth) <= ZERO_RATIO * min(loss(perturbed object), loss(perturbed probe)), the
-# perturbations being PERT rad rms-scale phase errors.  Float32 pipeline: measured ratios are
-# <= 3e-6 (l1) / 1e-10 (l2) over the generated families (see evidence "max_ratio"); the thresholds
-# leave a factor >= 100.  A convention error (index, sign, shift, normalisation) gives ratios >= 1e-2.
-ZERO_RATIO = {"l2_amplitude": 1e-7, "l2_intensity": 1e-7, "l1_amplitude": 5e-4, "l1_intensity": 5e-4}
+# "zero to numerical precision":  loss(ground truth) <= ZERO_RATIO * max(loss(perturbed object),
+# loss(perturbed probe)), the perturbations being PERT-rad-scale phase / 60 % amplitude errors.  The
+# pipeline is float32: measured ratios over the generated families are <= 2e-5 (l1) / 2e-10 (l2)
+# under no_shift and <= 4e-4 (l1) / 5e-8 (l2) under `constant` (whose preprocessing shifts the
+# amplitudes with a float32 FFT); see "max_ratio" in the evidence.  The thresholds leave a factor
+# >= 25; a convention error (index, sign, shift, normalisation, ordering) gives ratios >= 1e-2
+# (see the sensitivity list in the manifest note).
+ZERO_RATIO = {"no_shift": {"l2_amplitude": 1e-7, "l2_intensity": 1e-7, "l1_amplitude": 1e-3, "l1_intensity": 1e-3},
+              "constant": {"l2_amplitude": 1e-5, "l2_intensity": 1e-5, "l1_amplitude": 1e-2, "l1_intensity": 1e-2}}
+COM_PRECONDITION = 2e-6      # |fitted constant origin - (centre + integer)| in pixels
 PERT = 0.15
 I0 = 1000.0
 ENERGIES = [60e3, 80e3, 200e3, 300e3]
@@ -40,6 +45,8 @@ PRE = """From QV.lib Require Import Prelude.
 From QV.model Require Import C02_Model.
 From Coq Require Import QArith.
 Local Close Scope Q_scope.
+(* Q values cross the boundary as (numerator, denominator) of the reduced fraction *)
+Definition qnd (q : Q) : Z * Z := (Qnum (Qred q), Z.pos (Qden (Qred q))).
 """
 
 
@@ -88,6 +95,22 @@ def lib_forward(pt, batch, loss_type):
     pred = pt.detector_model.forward(overlap)
     loss, _ = pt.error_estimate(pred, bi, loss_type=loss_type)
     return float(loss), pred
+
+
+def lib_forward_multi(pt, batch, loss_types=LOSSES):
+    """one pass of the forward chain, then error_estimate for each loss type (the prediction does
+    not depend on the loss type; the targets do: dset._set_targets as reconstruct() calls it)"""
+    bi = np.asarray(batch)
+    patch_indices, _pos, frac, descan = pt.dset.forward(bi, pt.obj_padding_px)
+    shifted = pt.probe_model.forward(frac)
+    patches = pt.obj_model.forward(patch_indices)
+    _pp, overlap = pt.forward_operator(patches, shifted, descan)
+    pred = pt.detector_model.forward(overlap)
+    out = {}
+    for lt in loss_types:
+        pt.dset._set_targets(lt)
+        out[lt] = float(pt.error_estimate(pred, bi, loss_type=lt)[0])
+    return out, pred
 
 
 def lib_reconstruct_loss(pt, batch_size, loss_type, orthogonalize):
@@ -254,7 +277,7 @@ def gen_case(r: random.Random, family: str, quick=True) -> dict:
     w = [w[i] * (0.55 ** i) for i in range(len(w))]
     c["weights"] = [x / sum(w) for x in w]
     c["orthogonalize"] = r.random() < 0.5
-    c["probe_pert"] = r.choice(["defocus", "amplitude"])
+    c["probe_pert"] = "amplitude" if c["even_obj"] else r.choice(["defocus", "amplitude"])
     return c
 
 
@@ -344,45 +367,41 @@ def run_case(c: dict, want_arrays=False) -> CaseResult:
     res["mean_intensity"] = float(pt.dset.mean_diffraction_intensity)
     res["com_fit"] = [float(pt.dset.com_fit[0].mean()), float(pt.dset.com_fit[1].mean())]
     if nm == 1:
-        # normalisation path: from_array was handed the probe at an arbitrary scale? (see run_norm_case)
-        pass
+        # normalisation path: a single-mode probe handed to from_array at an ARBITRARY scale and not
+        # touched afterwards — the library itself (_apply_weights) must scale it to the mean pattern sum
+        ptn = lib_build(data.reshape(gpts + roi), step_A, recip, energy, gt_lib, c["kind"], c["thick"], 0.37 * prb,
+                        c["pad"], c["com"], nm)
+        res["norm_path"] = lib_forward_multi(ptn, np.arange(npos), ("l2_amplitude", "l1_intensity"))[0]
+        pi_ = float((np.abs(ptn.probe_model.probe.detach().cpu().numpy()) ** 2).sum())
+        res["norm_probe_intensity"] = pi_
     pt.probe_model.probe = prb.astype(np.complex64)          # public probe setter
     pt.constraints = {"probe": {"orthogonalize_probe": bool(c["orthogonalize"])}}
     allidx = np.arange(npos)
     pobj = perturb_object(param, c["kind"], c["seed"])
     pobj_lib = np.roll(pobj, tuple(offi), axis=(-2, -1))
     pprb = sim.probe_real_space(perturb_probe(c, psi_k)).astype(np.complex64)
-    losses = {}
-    preds = {}
-    for lt in LOSSES:
-        l_gt, pred = lib_forward(pt, allidx, lt)
-        with _Saved(pt):
-            set_obj(pt, pobj_lib, c["kind"])
-            l_po, _ = lib_forward(pt, allidx, lt)
-        with _Saved(pt):
-            pt.probe_model.probe = pprb
-            l_pp, _ = lib_forward(pt, allidx, lt)
-        losses[lt] = {"gt": l_gt, "pert_obj": l_po, "pert_probe": l_pp}
-        if want_arrays:
-            preds[lt] = pred.detach().cpu().numpy()
+    l_gt, pred = lib_forward_multi(pt, allidx)
+    with _Saved(pt):
+        set_obj(pt, pobj_lib, c["kind"])
+        l_po, _ = lib_forward_multi(pt, allidx)
+    with _Saved(pt):
+        pt.probe_model.probe = pprb
+        l_pp, _ = lib_forward_multi(pt, allidx)
+    losses = {lt: {"gt": l_gt[lt], "pert_obj": l_po[lt], "pert_probe": l_pp[lt]} for lt in LOSSES}
+    preds = {"pred": pred.detach().cpu().numpy()} if want_arrays else {}
     res["losses"] = losses
     # 4. batches: the batch-fraction-weighted sum of the batch losses equals the full loss
-    #    (at the perturbed object, where the loss is not ~0), for a batch size that does not divide
+    #    (at the perturbed object, where the loss is not ~0), for batch sizes that need not divide
     rb = random.Random(c["seed"] + 5)
     perm = list(range(npos))
     rb.shuffle(perm)
-    bsz = rb.choice([1, 2, 3, max(1, npos // 2), max(1, npos - 1)])
+    bsz = rb.choice([b for b in (1, 2, 3, max(1, npos // 2), max(1, npos - 1), 5) if -(-npos // b) <= 6])
     batches = [perm[i:i + bsz] for i in range(0, npos, bsz)]
-    bl = {}
     with _Saved(pt):
         set_obj(pt, pobj_lib, c["kind"])
-        for lt in LOSSES:
-            full, _ = lib_forward(pt, allidx, lt)
-            parts = [lib_forward(pt, b, lt)[0] for b in batches]
-            wsum = sum(len(b) / npos * p for b, p in zip(batches, parts))
-            bl[lt] = {"full": full, "weighted": wsum, "batch": bsz, "nb": len(batches),
-                      "mean": sum(parts) / len(parts)}
-    res["batch"] = bl
+        parts = [lib_forward_multi(pt, b)[0] for b in batches]
+    res["batch"] = {lt: {"full": l_po[lt], "weighted": sum(len(b) / npos * p[lt] for b, p in zip(batches, parts)),
+                         "batch": bsz, "nb": len(batches), "mean": sum(p[lt] for p in parts) / len(parts)} for lt in LOSSES}
     # 5. the real reconstruct() loop at the ground truth (optimiser step replaced by a recorder)
     lt = LOSSES[c["seed"] % 4]
     rl, go, gp, nb = lib_reconstruct_loss(pt, bsz, lt, c["orthogonalize"])
@@ -414,19 +433,30 @@ def oracle(res: CaseResult, claim_zero=True):
     if abs(res["mean_intensity"] / I0 - 1) > 1e-4:
         bad.append(("mean-diffraction-intensity", "mean_diffraction_intensity %.8g != simulated mean pattern sum %.8g" % (
             res["mean_intensity"], I0)))
+    zr = ZERO_RATIO[c["com"]]
     for lt, v in res["losses"].items():
-        ref = min(v["pert_obj"], v["pert_probe"])
+        ref = max(v["pert_obj"], v["pert_probe"])
         if claim_zero:
-            if not (v["gt"] <= ZERO_RATIO[lt] * ref):
+            if not (v["gt"] <= zr[lt] * ref):
                 bad.append(("loss-not-zero-at-ground-truth/%s" % lt,
                             "%s at the ground truth = %.6g, not ~0 (perturbed object %.6g, perturbed probe %.6g; ratio %.3g > %.1g) "
                             "[%s, %d slice(s), %d mode(s), roi %s, scan %s step %s px, padding %s -> object %s, %s]" % (
-                                lt, v["gt"], v["pert_obj"], v["pert_probe"], v["gt"] / max(ref, 1e-300), ZERO_RATIO[lt],
+                                lt, v["gt"], v["pert_obj"], v["pert_probe"], v["gt"] / max(ref, 1e-300), zr[lt],
                                 c["kind"], c["slices"], c["modes"], c["roi"], c["gpts"], [round(s, 3) for s in c["step_px"]],
                                 c["pad"], res["obj_shape"], c["com"])))
-        if not (v["pert_obj"] > v["gt"] and v["pert_probe"] > v["gt"]):
-            bad.append(("loss-not-larger-at-perturbation/%s" % lt,
-                        "%s: ground truth %.6g, perturbed object %.6g, perturbed probe %.6g" % (lt, v["gt"], v["pert_obj"], v["pert_probe"])))
+            if not (v["pert_obj"] > 10 * v["gt"] and v["pert_probe"] > 10 * v["gt"]):
+                bad.append(("loss-not-larger-at-perturbation/%s" % lt,
+                            "%s: ground truth %.6g, perturbed object %.6g, perturbed probe %.6g" % (lt, v["gt"], v["pert_obj"], v["pert_probe"])))
+    if claim_zero and "norm_path" in res:
+        if abs(res["norm_probe_intensity"] / res["mean_intensity"] - 1) > 1e-4:
+            bad.append(("probe-normalisation", "after set_initial_probe the total probe intensity is %.8g, the mean diffraction "
+                        "intensity is %.8g" % (res["norm_probe_intensity"], res["mean_intensity"])))
+        for lt, v in res["norm_path"].items():
+            ref = max(res["losses"][lt]["pert_obj"], res["losses"][lt]["pert_probe"])
+            if not (v <= zr[lt] * ref):
+                bad.append(("probe-normalisation/%s" % lt,
+                            "single-mode probe passed to from_array at scale 0.37 and normalised by the library: %s at the ground "
+                            "truth = %.6g (perturbation scale %.6g)" % (lt, v, ref)))
     for lt, v in res["batch"].items():
         if abs(v["weighted"] - v["full"]) > 2e-4 * abs(v["full"]):
             bad.append(("loss-batch-fraction-scaling/%s" % lt,
@@ -435,7 +465,7 @@ def oracle(res: CaseResult, claim_zero=True):
     rc = res["reconstruct"]
     if claim_zero:
         lt = rc["loss_type"]
-        if not (rc["loss"] <= ZERO_RATIO[lt] * rc["loss_pert"] * 3):
+        if not (rc["loss"] <= zr[lt] * rc["loss_pert"] * 3):
             bad.append(("reconstruct-loop-loss-not-zero/%s" % lt,
                         "one epoch of reconstruct() at the ground truth reports %s = %.6g (perturbed object: %.6g)" % (
                             lt, rc["loss"], rc["loss_pert"])))
@@ -444,3 +474,280 @@ def oracle(res: CaseResult, claim_zero=True):
                         "object gradient of %s at the ground truth %.4g is not small against %.4g at the perturbed object" % (
                             lt, rc["grad_obj"], rc["grad_obj_pert"])))
     return bad
+
+
+# --------------------------------------------------------------------------------------------
+# correspondence of the Z-level model with the real arrays
+
+def _frac32(x):
+    return Fraction(*float(np.float32(x)).as_integer_ratio())
+
+
+def correspondence_items(res: CaseResult, rng: random.Random):
+    """[(label, coq_expr, expected_python_value, comparer)] for one evaluated case"""
+    import torch
+    c = res["case"]
+    pt = res["_pt"]
+    n, m = c["roi"]
+    h, w = res["obj_shape"]
+    npos = c["gpts"][0] * c["gpts"][1]
+    items = []
+    # (1) rounded patch origin, sub-pixel part and patch indices, for the positions the forward pass used
+    idx = np.arange(npos)
+    patch_indices, pos, frac, _ = pt.dset.forward(idx, pt.obj_padding_px)
+    pos = pos.detach().cpu().numpy()
+    frac = frac.detach().cpu().numpy()
+    pi = patch_indices.detach().cpu().numpy()
+    for p in sorted(rng.sample(range(npos), min(2, npos))):
+        qr, qc = _frac32(pos[p, 0]), _frac32(pos[p, 1])
+        expr = ("(let r0 := round_half_even %s in let c0 := round_half_even %s in "
+                "(r0, c0, patch_indices %s %s %s %s r0 c0, qnd (frac_part %s), qnd (frac_part %s)))" % (
+                    cq(qr), cq(qc), cz(h), cz(w), cz(n), cz(m), cq(qr), cq(qc)))
+        exp = (int(np.round(pos[p, 0])), int(np.round(pos[p, 1])), pi[p].astype(int).tolist(),
+               _frac32(frac[p, 0]), _frac32(frac[p, 1]))
+        items.append(("patch-indices", expr, exp, None, {"position": [float(pos[p, 0]), float(pos[p, 1])], "pattern": int(p)}))
+    # (2) centring permutation of the preprocessing (integer origins only)
+    cf = [float(pt.dset.com_fit[0].mean()), float(pt.dset.com_fit[1].mean())]
+    if all(abs(x - round(x)) < 1e-4 for x in cf):
+        sr, sc = int(round(cf[0])), int(round(cf[1]))
+        expr = "(map (centre_index %s %s) (map Z.of_nat (seq 0 %d)), map (centre_index %s %s) (map Z.of_nat (seq 0 %d)))" % (
+            cz(n), cz(sr), n, cz(m), cz(sc), m)
+        p = rng.randrange(npos)
+        amp = pt.dset.amplitudes[p].detach().cpu().numpy()
+        cen = pt.dset.centered_amplitudes[p].detach().cpu().numpy()
+        items.append(("centring-permutation", expr, (amp, cen), "perm", {"com_fit": cf, "pattern": int(p)}))
+    return items
+
+
+def static_correspondence_items():
+    import torch
+    from quantem.diffractive_imaging.detector_models import DetectorPixelated
+    items = []
+    for n in list(range(1, 14)) + [16, 17, 32]:
+        ff = torch.fft.fftfreq(n, d=1 / n).numpy()
+        items.append(("fftfreq-order", "fftfreq_list %s" % cz(n), [int(round(float(x))) for x in ff], None, {"n": n}))
+    det = DetectorPixelated()
+    for (n, m) in [(4, 4), (5, 7), (8, 6), (9, 9), (16, 12), (7, 8), (1, 3)]:
+        out = det.forward(torch.ones((1, 1, n, m), dtype=torch.complex64))[0].numpy()
+        am = np.unravel_index(int(np.argmax(out)), out.shape)
+        conc = float(out[am] / out.sum())
+        items.append(("detector-dc-position", "(dc_position %s, dc_position %s)" % (cz(n), cz(m)),
+                      (int(am[0]), int(am[1])), None, {"roi": [n, m], "fraction_in_dc_pixel": conc}))
+    return items
+
+
+def compare_item(item, val):
+    label, expr, exp, how, info = item
+    if how == "perm":
+        amp, cen = exp
+        pr, pc = val
+        if sorted(pr) != list(range(amp.shape[0])) or sorted(pc) != list(range(amp.shape[1])):
+            return "model centring map is not a permutation: %s %s" % (pr, pc)
+        pred = amp[np.ix_(pr, pc)]
+        err = float(np.abs(pred - cen).max() / max(1e-30, np.abs(cen).max()))
+        return None if err < 2e-4 else "centred amplitudes differ from the permuted amplitudes by %.3g (relative)" % err
+    if label == "patch-indices":
+        r0, c0, pi, fr, fc = val
+        er0, ec0, epi, efr, efc = exp
+        if (r0, c0) != (er0, ec0):
+            return "rounded position: model %s, library %s" % ((r0, c0), (er0, ec0))
+        if pi != epi:
+            return "patch indices differ: model %s... library %s..." % (str(pi)[:120], str(epi)[:120])
+        fr, fc = Fraction(fr[0], fr[1]), Fraction(fc[0], fc[1])
+        if fr != efr or fc != efc:
+            return "fractional part: model %s %s, library %s %s" % (fr, fc, efr, efc)
+        return None
+    v = tuple(val) if isinstance(exp, tuple) else val
+    return None if v == exp else "model %s, library %s" % (val, exp)
+
+
+# --------------------------------------------------------------------------------------------
+
+def _ratios(res):
+    return {lt: v["gt"] / max(1e-300, max(v["pert_obj"], v["pert_probe"])) for lt, v in res["losses"].items()}
+
+
+def _summary(res):
+    c = res["case"]
+    return {"family": c["family"], "roi": c["roi"], "scan": c["gpts"], "step_px": [round(s, 4) for s in c["step_px"]],
+            "padding_requested": c["pad"], "padding_effective": res.get("pad_eff"), "object_shape": res.get("obj_shape"),
+            "object_type": c["kind"], "slices": c["slices"], "modes": c["modes"], "com_fit_function": c["com"],
+            "injected_descan_px": c["descan"], "position_offset_px": res.get("offset"),
+            "loss_ratio_gt_over_perturbed": {k: float("%.3g" % v) for k, v in _ratios(res).items()} if "losses" in res else None,
+            "losses": res.get("losses", {}).get("l2_amplitude")}
+
+
+def run(ctx: Ctx):
+    ctx.hash_sources("diffractive_imaging/dataset_models.py",
+                     ["PtychographyDatasetBase._set_patch_indices", "PtychographyDatasetBase._obj_shape_crop_2d",
+                      "PtychographyDatasetBase._set_targets", "DatasetConstraints.apply_hard_constraints",
+                      "PtychographyDatasetRaster._set_initial_scan_positions_px", "PtychographyDatasetRaster.preprocess",
+                      "PtychographyDatasetRaster._set_intensities_com",
+                      "PtychographyDatasetRaster._normalize_diffraction_intensities", "PtychographyDatasetRaster.forward"])
+    ctx.hash_sources("diffractive_imaging/object_models.py", ["ObjectBase._get_obj_patches", "ObjectPixelated.forward",
+                                                              "ObjectConstraints.apply_hard_constraints"])
+    ctx.hash_sources("diffractive_imaging/probe_models.py", ["ProbePixelated.forward", "ProbePixelated._apply_weights",
+                                                             "ProbePixelated.set_initial_probe",
+                                                             "ProbeBase._compute_propagator_arrays"])
+    ctx.hash_sources("diffractive_imaging/detector_models.py", ["DetectorPixelated.forward"])
+    ctx.hash_sources("diffractive_imaging/ptychography_base.py",
+                     ["PtychographyBase.forward_operator", "PtychographyBase.error_estimate",
+                      "PtychographyBase.overlap_projection", "PtychographyBase._propagate_array",
+                      "PtychographyBase.preprocess", "adjust_padding_power2"])
+    ctx.hash_sources("diffractive_imaging/ptychography.py", ["Ptychography.reconstruct"])
+    ctx.hash_sources("diffractive_imaging/ptycho_utils.py", ["fourier_shift_expand", "fourier_translation_operator", "shift_array"])
+    ctx.cov["rule"] = (
+        "a case = one simulated experiment (object type x slices x modes x ROI x raster grid/step x requested padding x "
+        "energy/aberrations x com_fit_function x injected descan), drawn from ctx.rng; the first 12 main cases cycle through "
+        "every object type, 1..4 slices and 1..3 modes; distinct by (family, roi, scan, type, slices, modes, padding, step, "
+        "com, descan); non-trivial when it has >= 4 patterns and a fractional scan step or > 1 slice or > 1 mode. Families: "
+        "main (even ROI incl. non-square, no_shift), constant (symmetric experiment whose fitted origin is the detector centre "
+        "+ an injected integer, precondition checked to %.0e px), odd / odd-constant (odd ROI: reported, not claimed)." % COM_PRECONDITION)
+    ctx.assumptions += [
+        "numpy.fft / torch.fft compute the DFT (oracle contract; both the simulator's propagation/detector and the library use it)",
+        "the independent simulator harness/c02_sim.py states the physics convention (transmission exp(+iV), Fresnel propagator "
+        "exp(-i pi lambda dz k^2), probe exp(-i chi), detector zero frequency at floor(N/2)); the global conjugate convention "
+        "gives the same intensities and is not distinguishable",
+        "gauge fixed by the harness, not by the library: lateral origin (ground truth rolled by the constant integer offset "
+        "between library and simulated positions), object period and padding (asked from the library by a dry run), global "
+        "phase, probe intensity scale (= mean pattern sum)",
+        "float32 pipeline: 'zero' means <= ZERO_RATIO x the loss at a 0.15-rad / 60%-amplitude perturbation (thresholds in the evidence)",
+        "`constant` is claimed only for data whose fitted origin is the detector centre + an integer to 2e-6 px (harness-checked precondition)",
+    ]
+    ctx.cov["trusted_base"] += [
+        "Coq 8.16.1 kernel incl. vm_compute (used to run the Z-level model); no native_compute",
+        "hand-written model coq/model/C02_Model.v tied to /repo by the correspondence on patch indices, rounding split, "
+        "centring permutation, fftfreq order and detector DC position",
+        "harness/c02_sim.py (independent float64 NumPy reference simulator) and harness/props/C02.py (generators, gauge "
+        "fixing, thresholds, Python->Coq printers), harness/common.py",
+        "section hypotheses of coq/lib/DFT.v (root-of-unity laws; shown satisfiable in Q(i), N = 4) and the norm='ortho' "
+        "factor sN with sN*sN = 1/(N1 N2)",
+        "PARTIAL: the end-to-end equality with simulated data is validated per run, not proved",
+    ]
+    ctx.cov["thresholds"] = {"zero_ratio": ZERO_RATIO, "perturbation_rad": PERT, "com_precondition_px": COM_PRECONDITION}
+    ctx.proofs_or_violation()
+
+    import torch  # noqa: F401  (import cost ~5 s)
+    torch.set_num_threads(min(4, torch.get_num_threads()))
+    r = ctx.rng
+    plan = ([("main", ctx.budget(28, 700))] + [("constant", ctx.budget(4, 60))] + [("odd", ctx.budget(3, 30))]
+            + [("odd-constant", ctx.budget(2, 20))])
+    kinds = ["complex", "pure_phase", "potential"]
+    max_ratio = {"no_shift": {lt: 0.0 for lt in LOSSES}, "constant": {lt: 0.0 for lt in LOSSES}}
+    odd_report = []
+    corr_items = []
+    n_unmet = 0
+    for family, count in plan:
+        ctx.log("family %s: %d cases" % (family, count))
+        for k in range(count):
+            c = gen_case(r, family, quick=ctx.quick)
+            if family == "main" and k < 12:
+                c["kind"], c["slices"], c["modes"] = kinds[k % 3], 1 + k % 4, 1 + (k // 2) % 3
+                c["thick"] = [round(r.uniform(1.0, 12.0), 3) for _ in range(c["slices"] - 1)]
+                w = [0.6 ** i * r.uniform(0.6, 1.0) for i in range(c["modes"])]
+                c["weights"] = [x / sum(w) for x in w]
+            keep = len(corr_items) < ctx.budget(24, 120) and family in ("main", "constant")
+            try:
+                res = run_case(c, want_arrays=keep)
+            except Exception as e:  # the library (or the simulator) crashed on a generated experiment
+                import traceback
+                tb = traceback.format_exc()
+                where = "harness" if "c02_sim.py" in tb.splitlines()[-3] else "library"
+                ctx.count(case_key(c), nontrivial=False)
+                ctx.dist("crash/%s" % type(e).__name__)
+                ctx.violation("pipeline-exception/%s/%s" % (where, type(e).__name__),
+                              "the %s raised %s: %s on a simulated experiment [roi %s, scan %s step %s px, padding %s, %s]" % (
+                                  where, type(e).__name__, str(e)[:200], c["roi"], c["gpts"],
+                                  [round(s, 3) for s in c["step_px"]], c["pad"], c["com"]),
+                              {"kind": "case", "case": c, "traceback": tb[-1500:]})
+                continue
+            npos = c["gpts"][0] * c["gpts"][1]
+            frac_step = any(abs(s - round(s)) > 1e-6 for s in c["step_px"])
+            ctx.count(case_key(c), nontrivial=npos >= 4 and (frac_step or c["slices"] > 1 or c["modes"] > 1))
+            ctx.dist("family/%s" % family)
+            ctx.dist("object_type/%s" % c["kind"])
+            ctx.dist("slices/%d" % c["slices"])
+            ctx.dist("modes/%d" % c["modes"])
+            ctx.dist("roi/%s" % ("odd" if (c["roi"][0] % 2 or c["roi"][1] % 2) else "square" if c["roi"][0] == c["roi"][1] else "non-square"))
+            ctx.dist("scan_step/%s" % ("fractional" if frac_step else "integer"))
+            ctx.dist("padding_requested/%s" % ("zero" if c["pad"] == [0, 0] else "nonzero"))
+            ctx.dist("batch_size/%s" % ("divides" if npos % res["batch"]["l2_amplitude"]["batch"] == 0 else "non-dividing"))
+            ctx.dist("orthogonalize_probe/%s" % c["orthogonalize"])
+            claim = family in ("main", "constant")
+            if family == "constant":
+                met = max(abs(res["com_dev"][0]), abs(res["com_dev"][1])) <= COM_PRECONDITION and not c.get("no_symmetric_geometry")
+                ctx.dist("constant/precondition_%s" % ("met" if met else "unmet"))
+                if not met:
+                    n_unmet += 1
+                    claim = False
+            bad = oracle(res, claim_zero=claim)
+            if not claim:
+                # not claimed: only the harness-independent parts of the oracle apply (positions, batch scaling)
+                bad = [b for b in bad if b[0].startswith(("scan-position", "loss-batch", "mean-diffraction"))]
+                odd_report.append(_summary(res))
+            else:
+                rt = _ratios(res)
+                for lt in LOSSES:
+                    max_ratio[c["com"]][lt] = max(max_ratio[c["com"]][lt], rt[lt])
+            for key, what in bad:
+                ctx.violation(key, what, {"kind": "case", "case": c, "observed": _summary(res)})
+            if keep and "_pt" in res:
+                for it in correspondence_items(res, r):
+                    corr_items.append((it, c))
+            if family != "odd":
+                ctx.sample(_summary(res), limit=5)
+            for kk in [x for x in res if x.startswith("_")]:
+                del res[kk]
+    ctx.cov["max_ratio"] = {k: {lt: float("%.3g" % v) for lt, v in d.items()} for k, d in max_ratio.items()}
+    ctx.cov["not_claimed_report"] = {
+        "text": "odd ROI sizes under no_shift are half-pixel interpolated by the preprocessing (theorem C02_centre_index): the loss "
+                "at the ground truth is NOT ~0 there; under `constant` with an exactly centred beam they behave like even sizes. "
+                "`constant` cases whose fitted origin is not centre + integer are listed too. None of these count as violations.",
+        "cases": odd_report[:12], "constant_precondition_unmet": n_unmet}
+    ctx.log("oracle: %d cases evaluated; max ratio %s" % (ctx.cov["evaluations"], ctx.cov["max_ratio"]))
+
+    # ---- correspondence
+    items = [(it, None) for it in static_correspondence_items()] + corr_items
+    try:
+        vals = ctx.coq_eval("corr", PRE, [it[0][1] for it in items], shard=20)
+    except Exception as e:
+        ctx.violation("model-evaluation-failed", "the Coq model could not be evaluated: %s" % str(e)[-400:], {"kind": "corr"}, found_input=False)
+        vals = []
+    nd = 0
+    for (it, c), v in zip(items, vals):
+        ctx.cov["traces_validated_against_impl"] += 1
+        ctx.dist("correspondence/%s" % it[0])
+        msg = compare_item(it, v)
+        if msg:
+            nd += 1
+            ctx.cov["disagreements_checked"] += 1
+            ctx.violation("%s-correspondence" % it[0],
+                          "library and Z-level model disagree on %s (%s): %s" % (it[0], it[4], msg),
+                          {"kind": "corr", "label": it[0], "expr": it[1], "info": it[4], "case": c}, found_input=False)
+    ctx.log("correspondence: %d items, %d disagreements" % (len(vals), nd))
+
+
+def replay(ctx: Ctx, path):
+    rp = json.loads(open(path).read())
+    if rp.get("kind") != "case":
+        print("replay of kind %r: re-run ./check C02 (expr: %s)" % (rp.get("kind"), rp.get("expr")))
+        return 0
+    c = rp["case"]
+    try:
+        res = run_case(c)
+    except Exception as e:
+        import traceback
+        traceback.print_exc()
+        print("the pipeline raised %s on this experiment: the property fails here" % type(e).__name__)
+        return 1
+    claim = c["family"] in ("main", "constant")
+    bad = oracle(res, claim_zero=claim)
+    if not claim:
+        bad = [b for b in bad if b[0].startswith(("scan-position", "loss-batch", "mean-diffraction"))]
+    print(json.dumps(_summary(res), indent=1))
+    for lt, v in res.get("losses", {}).items():
+        print("  %-13s ground truth %.6g   perturbed object %.6g   perturbed probe %.6g" % (lt, v["gt"], v["pert_obj"], v["pert_probe"]))
+    for k, wht in bad:
+        print("  FAILS [%s]: %s" % (k, wht))
+    print("oracle:", "property fails on this case" if bad else "property holds on this case")
+    return 1 if bad else 0
